@@ -15,9 +15,12 @@
 (***************************************************************************)
 EXTENDS Naturals, Sequences, FiniteSets, TLC
 
-CONSTANTS AsFoundJoin,      \* TRUE reproduces F8a: a relative target is always joined to the parent of the inferred root
+CONSTANTS Names, Vers, SubjectPorts, ServicePorts,     \* the shapes of the file name (besides "no port")
+          AsFoundJoin,      \* TRUE reproduces F8a: a relative target is always joined to the parent of the inferred root
           AsFoundOrder      \* TRUE reproduces F8b: the ancestor walk is tried before the bare root names
 
+VersQuick == { <<0, 1>>, <<1, 0>>, <<255, 255>> }
+VersThorough == VersQuick \cup { <<0, 255>>, <<255, 0>>, <<1, 1>> }
 VARIABLES ph, case, out
 vars == <<ph, case, out>>
 
@@ -156,13 +159,13 @@ PromisedSucceeds == ph = 1 /\ case.api = "files" /\ Promised(case) => Outcome(ca
 Init == ph = 0 /\ case = [depth |-> 0] /\ out = 0
 Pick ==
   /\ ph = 0
-  /\ \E depth \in 0..3, port \in {0 - 1, 0, 7509, 430}, ver \in { <<0, 1>>, <<1, 0>>, <<255, 255>> }, name \in {"T", "Tabby_2"},
+  /\ \E depth \in 0..3, port \in {0 - 1} \cup SubjectPorts \cup ServicePorts, ver \in Vers, name \in Names,
         cwd \in Cwds, tsp \in {"abs", "cwdrel", "rootrel"}, rdes \in {"abs", "rel", "name", "none"},
         extra \in {"none", "before", "after"}, api \in {"files", "namespace"}, kind \in {"message", "service"} :
        LET c == [depth |-> depth, port |-> port, ver |-> ver, name |-> name, cwd |-> cwd, tsp |-> tsp, rdes |-> rdes,
                  extra |-> extra, api |-> api, kind |-> kind] IN
          /\ Spellable(c)
-         /\ (kind = "service" => port # 7509) /\ (kind = "message" => port # 430)     \* service-IDs end at 511
+         /\ (kind = "service" => port \notin SubjectPorts \ ServicePorts) /\ (kind = "message" => port \notin ServicePorts \ SubjectPorts)  \* service-IDs end at 511
          /\ case' = c
          /\ out' = [identity |-> Identity(c, ExpectedRoot(c)), promised |-> Promised(c), parts |-> Parts(c, ExpectedRoot(c)),
                     model |-> IF api = "files" THEN Outcome(c).k ELSE "ok"]
